@@ -99,13 +99,14 @@ fn expected_unresolved(vocab: &Vocab, sub: &GTree) -> (BTreeSet<usize>, BTreeSet
             let mut s = scope.clone();
             apply(&mut s, &decls_of(t));
             let ns = ns_of_name(vocab, name);
-            if ns != 0 && !s.values().any(|n| *n == ns) {
+            // the xml prefix is reserved and always bound: the XML namespace is never unresolved
+            if ns != 0 && ns != 1 && !s.values().any(|n| *n == ns) {
                 aware.insert(ns);
                 blind.insert(ns);
             }
             for a in attrs_of(t) {
                 let ns = ns_of_name(vocab, a);
-                if ns != 0 {
+                if ns != 0 && ns != 1 {
                     if !s.values().any(|n| *n == ns) {
                         blind.insert(ns);
                     }
@@ -212,9 +213,10 @@ pub fn check_node(sink: &mut Sink, xot: &Xot, vocab: &Vocab, t: &GTree, path: &[
                 fail(sink, "C09", "C09:inherited_prefixes-not-in-parent-scope", &format!("({}, {}) is not a binding in scope at the parent", p, n), t, path, "inherited");
             }
         }
-        // needed: bindings of a namespace some element name needs, and non-empty prefixes of a namespace
-        // only attribute names need
-        let want: Scope = parent_scope.iter().filter(|(p, n)| blind.contains(n) || (aware.contains(n) && **p != 0)).map(|(p, n)| (*p, *n)).collect();
+        // needed: the bindings in scope at the parent whose namespace some name of the subtree
+        // cannot be written with (an attribute name may still be unable to use a default binding
+        // listed here; the filter is by namespace)
+        let want: Scope = parent_scope.iter().filter(|(_, n)| aware.contains(n)).map(|(p, n)| (*p, *n)).collect();
         if inh != want {
             let extra: Vec<(usize, usize)> = inh.iter().filter(|(p, _)| !want.contains_key(p)).map(|(p, n)| (*p, *n)).collect();
             let lacking: Vec<(usize, usize)> = want.iter().filter(|(p, _)| !inh.contains_key(p)).map(|(p, n)| (*p, *n)).collect();
